@@ -288,3 +288,126 @@ func FuzzVP_C32_address(f *testing.F) {
 		}
 	})
 }
+
+// ---- sender / recipient through the transaction API ---------------------------
+
+type vpC32Reader map[string]*UTXOKeys
+
+func (r vpC32Reader) ReadUTXOKeys(hash crypto.Hash, index uint) (*UTXOKeys, error) {
+	return r[fmt.Sprintf("%s:%d", hash, index)], nil
+}
+
+// The sender derives one-time keys when it adds outputs (AddOutputWithType, by
+// output position); the recipient derives the private keys when it spends them
+// (SignInput / SignUTXO, by the spent output's index, wherever the input sits
+// in the spending transaction). Both sides must meet in the same key.
+func TestVP_C32_sender_recipient_api(t *testing.T) {
+	c := kit.New(t, "C32", "rapid: 1..4 accounts from drawn seeds; a funding transaction with 1..6 outputs (script and other output types) to drawn owner subsets, keys made by AddOutputWithType; a spending transaction whose 1..4 inputs reference drawn outputs in drawn order, so input position and output index differ; oracle: SignInput and SignUTXO succeed for the owners, every signature verifies under the output's one-time key at that owner's position, viewing the key with the owner's private view key recovers the owner's public spend key, and a non-owner cannot sign; non-trivial = an input whose position differs from the spent output's index; distinct by (seeds, layout)")
+	c.Require("position!=index", "multi-owner", "non-owner-refused", "SignUTXO")
+	kit.SetChecks(kit.N(300, 20000))
+	rapid.Check(t, func(t *rapid.T) {
+		base := rapid.SliceOfN(rapid.Byte(), 16, 16).Draw(t, "seed")
+		na := rapid.IntRange(2, 4).Draw(t, "accounts")
+		var accts []*Address
+		for i := 0; i < na; i++ {
+			a := NewAddressFromSeed(vpC32Seed64(base, "acct", i))
+			accts = append(accts, &a)
+		}
+		fund := NewTransactionV5(XINAssetId)
+		fund.AddInput(crypto.Blake3Hash(base), 0)
+		nout := rapid.IntRange(1, 6).Draw(t, "outputs")
+		owners := make([][]int, nout)
+		for o := 0; o < nout; o++ {
+			k := rapid.IntRange(1, na-1).Draw(t, "owners")
+			owners[o] = rapid.Permutation(vpC32Range(na)).Draw(t, "owner_set")[:k]
+			var as []*Address
+			for _, ai := range owners[o] {
+				as = append(as, accts[ai])
+			}
+			ot := rapid.SampledFrom([]uint8{OutputTypeScript, OutputTypeScript, OutputTypeNodeRemove, OutputTypeCustodianUpdateNodes}).Draw(t, "otype")
+			fund.AddOutputWithType(ot, as, NewThresholdScript(uint8(k)), NewInteger(uint64(o+1)), vpC32Seed64(base, "out", o))
+		}
+		fh := fund.AsVersioned().PayloadHash()
+		reader := vpC32Reader{}
+		for o, out := range fund.Outputs {
+			reader[fmt.Sprintf("%s:%d", fh, o)] = &UTXOKeys{Mask: out.Mask, Keys: out.Keys}
+		}
+		nin := rapid.IntRange(1, min(4, nout)).Draw(t, "inputs")
+		picks := rapid.Permutation(vpC32Range(nout)).Draw(t, "spent")[:nin]
+		spend := NewTransactionV5(XINAssetId)
+		for _, o := range picks {
+			spend.AddInput(fh, uint(o))
+		}
+		spend.AddScriptOutput([]*Address{accts[0]}, NewThresholdScript(1), NewInteger(1), vpC32Seed64(base, "spend-out", 0))
+		signed := &SignedTransaction{Transaction: *spend}
+		msg := signed.AsVersioned().PayloadHash()
+		classes := []string{}
+		nt := false
+		for p, o := range picks {
+			var as []*Address
+			for _, ai := range owners[o] {
+				as = append(as, accts[ai])
+			}
+			if len(as) > 1 {
+				classes = append(classes, "multi-owner")
+			}
+			if p != o {
+				nt = true
+				classes = append(classes, "position!=index")
+			}
+			if err := signed.SignInput(reader, p, as); err != nil {
+				t.Fatalf("the owners of output %d cannot sign it as input %d: %v", o, p, err)
+			}
+			sigs := signed.SignaturesMap[len(signed.SignaturesMap)-1]
+			if len(sigs) != len(as) {
+				t.Fatalf("input %d: %d signatures for %d owners", p, len(sigs), len(as))
+			}
+			out := fund.Outputs[o]
+			for i, ai := range owners[o] {
+				sig := sigs[uint16(i)]
+				if sig == nil || !out.Keys[i].Verify(msg, *sig) {
+					t.Fatalf("output %d spent as input %d: signature of owner %d does not verify under the one-time key the sender derived", o, p, ai)
+				}
+				if got := crypto.ViewGhostOutputKey(out.Keys[i], &accts[ai].PrivateViewKey, &out.Mask, uint64(o)); *got != accts[ai].PublicSpendKey {
+					t.Fatalf("output %d key %d viewed with the owner's view key gives %s, owner spend key %s", o, i, got, accts[ai].PublicSpendKey)
+				}
+			}
+			// the same through SignUTXO
+			s2 := &SignedTransaction{Transaction: *spend}
+			if err := s2.SignUTXO(&UTXO{Input: Input{Hash: fh, Index: uint(o)}, Output: *out}, as); err != nil {
+				t.Fatalf("SignUTXO of output %d: %v", o, err)
+			}
+			for i := range owners[o] {
+				if sig := s2.SignaturesMap[0][uint16(i)]; sig == nil || !out.Keys[i].Verify(msg, *sig) {
+					t.Fatalf("SignUTXO: signature %d of output %d does not verify", i, o)
+				}
+			}
+			classes = append(classes, "SignUTXO")
+			// somebody who is not an owner cannot produce a key of this output
+			for ai := range accts {
+				isOwner := false
+				for _, x := range owners[o] {
+					isOwner = isOwner || x == ai
+				}
+				if !isOwner {
+					s3 := &SignedTransaction{Transaction: *spend}
+					if err := s3.SignInput(reader, p, []*Address{accts[ai]}); err == nil {
+						t.Fatalf("account %d, not an owner of output %d, signed it", ai, o)
+					}
+					classes = append(classes, "non-owner-refused")
+					break
+				}
+			}
+		}
+		c.Case(fmt.Sprintf("%x|%v|%v", base, owners, picks), nt, classes...)
+		c.Sample(map[string]any{"outputs": nout, "spent_in_order": picks, "owners": owners})
+	})
+}
+
+func vpC32Range(n int) []int {
+	r := make([]int, n)
+	for i := range r {
+		r[i] = i
+	}
+	return r
+}
